@@ -146,7 +146,7 @@ class Pool:
             lambda: R.RegularPolygonPixelRegion(c(), 5, 4, angle=ang(), **mv()),
             lambda: R.PointPixelRegion(c(), **mv()),
             lambda: R.LinePixelRegion(c(), c(), **mv()),
-            lambda: R.TextPixelRegion(c(), 'some text', **mv()),
+            lambda: R.TextPixelRegion(c(), 'some text', meta=mv()['meta'], visual=RegionVisual({'rotation': 30.0, 'color': 'blue'})),
         ]
         annmakers = [
             lambda: R.CircleAnnulusPixelRegion(c(), 2, 4.5, **mv()),
@@ -160,7 +160,7 @@ class Pool:
             lambda: R.PolygonSkyRegion(self.wcs.pixel_to_world(np.array([8.0, 14, 11]), np.array([3.0, 4, 9])), **mv()),
             lambda: R.PointSkyRegion(sc(), **mv()),
             lambda: R.LineSkyRegion(sc(), sc(), **mv()),
-            lambda: R.TextSkyRegion(sc(), 'sky text', **mv()),
+            lambda: R.TextSkyRegion(sc(), 'sky text', meta=mv()['meta'], visual=RegionVisual({'rotation': 30.0, 'color': 'blue'})),
         ]
         skyann = [
             lambda s=None: (lambda s: R.CircleAnnulusSkyRegion(sc(), s, 2 * s, **mv()))(sz()),
@@ -190,11 +190,32 @@ class Pool:
 
     # ---- operations -------------------------------------------------------------------------------
     def mutate(self, o):
+        """The user changes an object between calls: a meta/visual entry and one geometric parameter."""
+        import astropy.units as u
         obj = self.objs[o]
         if o == 'lst':
             obj = obj.regions[0]
         obj.meta['label'] = 'changed by user'
         obj.visual['color'] = 'green'
+        if o == 'cmp':
+            obj = obj.region1
+        if hasattr(obj, 'angle'):
+            obj.angle = obj.angle + 25 * u.deg
+        elif hasattr(obj, 'radius'):
+            obj.radius = obj.radius * 1.5
+        elif hasattr(obj, 'outer_radius'):
+            obj.outer_radius = obj.outer_radius * 1.5
+        elif hasattr(obj, 'center') and hasattr(obj.center, 'x'):
+            from regions import PixCoord
+            obj.center = PixCoord(obj.center.x + 1.5, obj.center.y - 0.5)
+
+    def rebuilt(self, o):
+        """An equal object constructed afresh from the current parameter values (no hidden state can survive this)."""
+        from regions import Regions
+        obj = self.objs[o]
+        if isinstance(obj, Regions):
+            return Regions([rebuild(r) for r in obj.regions])
+        return rebuild(obj)
 
     def run(self, op, o, k):
         """Perform library operation `op` on pool object `o` (k = position in the history, selects variants)."""
@@ -287,6 +308,16 @@ class Pool:
                 return obj.serialize(format='fits')
         except (ValueError, TypeError, KeyError, AttributeError) as ex:
             return ex
+
+
+def rebuild(r):
+    from regions.core.compound import CompoundPixelRegion, CompoundSkyRegion
+    if isinstance(r, (CompoundPixelRegion, CompoundSkyRegion)):
+        r1 = rebuild(r.region1)
+        shared = r.meta is r.region1.meta
+        return type(r)(r1, rebuild(r.region2), r.operator, meta=r1.meta if shared else r.meta.copy(),
+                       visual=r1.visual if r.visual is r.region1.visual else r.visual.copy())
+    return type(r)(**{p: getattr(r, p) for p in r._params}, meta=r.meta.copy(), visual=r.visual.copy())
 
 
 def child_main(arg):
